@@ -5,6 +5,8 @@ whole group): count, sum, and the four selectors with their tie-breaking orders.
 import OG.C09.Lemmas
 namespace OG.C09
 
+variable (ty : ColType)
+
 /-! ## what the fields of a record mean (any order of the rows: one series or a whole group) -/
 
 /-- the points (time, value) of the rows that have a value. -/
@@ -18,13 +20,13 @@ theorem single_sum (r : Row) : (Stats.single r).sum = ((points [r]).map (·.2)).
 theorem points_cons (r : Row) (l : List Row) : points (r :: l) = points [r] ++ points l := by
   simp [points, List.filterMap_cons]; cases r.v <;> simp
 
-theorem mergeOf_count (l : List Row) : (mergeOf l).count = (points l).length := by
+theorem mergeOf_count (l : List Row) : (mergeOf ty l).count = (points l).length := by
   induction l with
   | nil => rfl
   | cons r l ih =>
     rw [mergeOf_cons, points_cons, List.length_append, ← ih, ← single_count]; rfl
 
-theorem mergeOf_sum (l : List Row) : (mergeOf l).sum = ((points l).map (·.2)).sum := by
+theorem mergeOf_sum (l : List Row) : (mergeOf ty l).sum = ((points l).map (·.2)).sum := by
   induction l with
   | nil => rfl
   | cons r l ih =>
@@ -75,7 +77,8 @@ theorem sel_spec {β : Type} (f : β → β → β) (R : β → β → Prop) (ke
 first/last; ties exactly as `minMeta` / `maxMeta` / `firstMeta` / `lastMeta` break them. -/
 def RMin (p q : Int × Int) : Prop := p.1 < q.1 ∨ (p.1 = q.1 ∧ p.2 ≤ q.2)
 def RMax (p q : Int × Int) : Prop := q.1 < p.1 ∨ (p.1 = q.1 ∧ p.2 ≤ q.2)
-def RFirst (p q : Int × Int) : Prop := p.1 < q.1 ∨ (p.1 = q.1 ∧ q.2 ≤ p.2)
+def RFirst (ty : ColType) (p q : Int × Int) : Prop :=
+  p.1 < q.1 ∨ (p.1 = q.1 ∧ (if ty = .bool then p.2 ≤ q.2 else q.2 ≤ p.2))
 def RLast (p q : Int × Int) : Prop := q.1 < p.1 ∨ (p.1 = q.1 ∧ q.2 ≤ p.2)
 
 def keyVT (r : Row) : Option (Int × Int) := r.v.map (fun v => (v, r.t))
@@ -92,33 +95,34 @@ theorem single_last_key (r : Row) : (Stats.single r).last = keyTV r := by
 
 theorem pickMin_choice (a b : Int × Int) : pickMin a b = a ∨ pickMin a b = b := by unfold pickMin; split <;> simp
 theorem pickMax_choice (a b : Int × Int) : pickMax a b = a ∨ pickMax a b = b := by unfold pickMax; split <;> simp
-theorem pickFirst_choice (a b : Int × Int) : pickFirst a b = a ∨ pickFirst a b = b := by unfold pickFirst; split <;> simp
+theorem pickFirst_choice (a b : Int × Int) : pickFirst ty a b = a ∨ pickFirst ty a b = b := by
+  unfold pickFirst; by_cases h : ty = .bool <;> simp only [h, if_true, if_false] <;> split <;> simp
 theorem pickLast_choice (a b : Int × Int) : pickLast a b = a ∨ pickLast a b = b := by unfold pickLast; split <;> simp
 
 theorem mergeOf_min_spec (l : List Row) :
-    SelSpec RMin keyVT l (mergeOf l).min :=
-  sel_spec pickMin RMin keyVT (fun l => (mergeOf l).min) rfl
+    SelSpec RMin keyVT l (mergeOf ty l).min :=
+  sel_spec pickMin RMin keyVT (fun l => (mergeOf ty l).min) rfl
     (fun r l => by rw [mergeOf_cons, ← single_min_key]; rfl) pickMin_choice
     (fun a b => by unfold pickMin RMin; grind) (fun a => by unfold RMin; grind)
     (fun a b c => by unfold RMin; grind) l
 
 theorem mergeOf_max_spec (l : List Row) :
-    SelSpec RMax keyVT l (mergeOf l).max :=
-  sel_spec pickMax RMax keyVT (fun l => (mergeOf l).max) rfl
+    SelSpec RMax keyVT l (mergeOf ty l).max :=
+  sel_spec pickMax RMax keyVT (fun l => (mergeOf ty l).max) rfl
     (fun r l => by rw [mergeOf_cons, ← single_max_key]; rfl) pickMax_choice
     (fun a b => by unfold pickMax RMax; grind) (fun a => by unfold RMax; grind)
     (fun a b c => by unfold RMax; grind) l
 
 theorem mergeOf_first_spec (l : List Row) :
-    SelSpec RFirst keyTV l (mergeOf l).first :=
-  sel_spec pickFirst RFirst keyTV (fun l => (mergeOf l).first) rfl
-    (fun r l => by rw [mergeOf_cons, ← single_first_key]; rfl) pickFirst_choice
-    (fun a b => by unfold pickFirst RFirst; grind) (fun a => by unfold RFirst; grind)
-    (fun a b c => by unfold RFirst; grind) l
+    SelSpec (RFirst ty) keyTV l (mergeOf ty l).first :=
+  sel_spec (pickFirst ty) (RFirst ty) keyTV (fun l => (mergeOf ty l).first) rfl
+    (fun r l => by rw [mergeOf_cons, ← single_first_key]; rfl) (pickFirst_choice ty)
+    (fun a b => by unfold pickFirst RFirst; split <;> grind) (fun a => by unfold RFirst; split <;> grind)
+    (fun a b c => by unfold RFirst; split <;> grind) l
 
 theorem mergeOf_last_spec (l : List Row) :
-    SelSpec RLast keyTV l (mergeOf l).last :=
-  sel_spec pickLast RLast keyTV (fun l => (mergeOf l).last) rfl
+    SelSpec RLast keyTV l (mergeOf ty l).last :=
+  sel_spec pickLast RLast keyTV (fun l => (mergeOf ty l).last) rfl
     (fun r l => by rw [mergeOf_cons, ← single_last_key]; rfl) pickLast_choice
     (fun a b => by unfold pickLast RLast; grind) (fun a => by unfold RLast; grind)
     (fun a b c => by unfold RLast; grind) l
